@@ -17,13 +17,17 @@ PROPERTY_ID = "C09"
 RULE = ("Inputs of construct_repetition_code_circuit as plain data: distance d, data bits, ancilla bits (or none), QEC "
         "cycles, description route {none = default from the initial state, from_chain(2d-1), from_initial_state, "
         "from_connectivity(contiguous data-to-data sub-chain of Repetition9Code / Repetition9Round6Code / "
-        "Repetition5Round4Code, either direction)} and refocusing on/off. small_all_states enumerates d<=3 (thorough "
-        "d<=4) x every data state x every ancilla state (and 'no ancilla states given') x cycles 0..5 (thorough 0..6) "
-        "completely; subchains enumerates the contiguous sub-chains of the three shipped layouts (quick: forward, d<=5; "
+        "Repetition5Round4Code, either direction)} and refocusing on/off. small_all_states enumerates, for cycles 0..5, "
+        "d=2 x all 4 data states x {no ancilla state given, ancilla 0, 1} x routes {none, from_chain without refocusing, "
+        "from_initial_state without refocusing} and d=3 x all 8 data states x all 4 ancilla states x route none "
+        "(thorough: d=2..4 x all data states x {none given + all ancilla states} x cycles 0..6 x 5 route/refocusing "
+        "combinations) "
+        "completely; subchains enumerates the contiguous sub-chains of the three shipped layouts (quick: forward, d<=4; "
         "thorough: all 82 x both directions) with derived states/cycles; sampled / sampled_large draw d<=6 / d<=9, "
         "cycles <=8 / <=16 with Hypothesis; partial_states gives fewer states than qubits to an explicit description. "
-        "Every case is checked as built, after apply_modifiers(), after apply_modifiers().flatten() and (when no "
-        "repetition count exceeds 1, i.e. cycles<=2) after flatten() alone, each on a freshly built circuit. "
+        "Every case is checked as built, after apply_modifiers() on a second freshly built circuit, after flatten() of "
+        "that unrolled circuit (the order the library itself uses) and, when no repetition count exceeds 1 (cycles<=2), "
+        "after flatten() alone on a third fresh circuit. "
         "Non-trivial = cycles>=2 or a requested ancilla state is 1 or the description is a Surface-17 sub-chain; "
         "distinct = distinct canonical JSON of the case.")
 ASSUMPTIONS = [
@@ -201,7 +205,7 @@ def nontrivial(case):
     return case["cycles"] >= 2 or bool(case["anc"] and any(case["anc"])) or case["desc"] == "connectivity"
 
 
-def body(case, ctx):
+def _body(case, ctx):
     from qce_circuit.addon_stim import to_stim
     ctx.case(case, nontrivial=nontrivial(case), classes=classes_of(case))
     # fresh circuit per chain of in-place modifications: built | unrolled -> flattened (the order the library itself
@@ -389,6 +393,15 @@ class _Relabel:
 
     def __getattr__(self, item):
         return getattr(self._ctx, item)
+
+
+def body(case, ctx):
+    # the library installs a "once" filter for its OperationNotFoundWarning at import time (in front of the harness'
+    # "ignore"); unsilenced, a thorough shard writes > 64 kB to stderr and blocks on the parent's pipe
+    import warnings
+    with warnings.catch_warnings():
+        warnings.simplefilter("ignore")
+        _body(case, ctx)
 
 
 def parts():
